@@ -36,9 +36,9 @@ class OneValue(twin.Mapping):
         if isinstance(v, str):
             self.kind, self.marker = "s", "zqv0"
         elif type(v) is int:
-            self.kind, self.marker = "i", 7700000
+            self.kind, self.marker = "i", (-7700000 if twin.negative(v) else 7700000)        # the marker carries the sign (twin.Mapping.value)
         elif isinstance(v, (float, __import__("decimal").Decimal)):
-            self.kind, self.marker = "f", 7700000.5
+            self.kind, self.marker = "f", (-7700000.5 if twin.negative(v) else 7700000.5)
         elif isinstance(v, (dict, list)):
             self.kind, self.marker = "j", {"zqv": 0}
         elif isinstance(v, twin.AdvEnum):
@@ -52,7 +52,7 @@ class OneValue(twin.Mapping):
         if self.kind == "same":
             return "[]"
         key = {"s": "zqv0", "i": "7700000", "f": "7700000.5", "j": json.dumps({"zqv": 0}), "e": "zqve0"}[self.kind]
-        ents = ["(%s, MVal %s)" % (cstr(key), dump_value(self.actual))]
+        ents = ["(%s, MVal %s)" % (cstr(key), dump_value(twin.magnitude(self.actual) if self.kind in "if" else self.actual))]
         if self.kind == "j":
             # the JSON term prints its own compact form; the reference JSON text is CPython's json.dumps
             ents.append("(%s, MVal (VDumped %s))" % (cstr('{"zqv":0}'), cstr(json.dumps(self.actual, separators=(",", ":"), ensure_ascii=False))))
